@@ -127,6 +127,34 @@ Proof.
   specialize (H (n, s) Hin). cbn [fst snd] in H. rewrite Hl in H. apply N.eqb_eq. exact H.
 Qed.
 
+(** ... and wherever it lists the NUMBER: the name the table gives a number is (one of) the name(s) the independent table
+    gives it, up to the listed synonyms (a number that changed hands - e.g. through a generator that keeps the wrong one of
+    two definitions - keeps passing the by-name test above, because the displaced name simply disappears) *)
+Definition agree_num_b (syn:list (string * string)) (t o:table) : bool :=
+  forallb (fun e =>
+    match filter (fun x => fst x =? fst e) o with
+    | [] => true
+    | l => existsb (fun x => String.eqb (snd x) (snd e) ||
+                             existsb (fun p => String.eqb (fst p) (snd e) && String.eqb (snd p) (snd x)) syn) l
+    end) t.
+
+Lemma agree_num_spec syn t o : agree_num_b syn t o = true ->
+  forall n s, In (n, s) t -> (exists s0, In (n, s0) o) ->
+  exists s', In (n, s') o /\ (s' = s \/ In (s, s') syn).
+Proof.
+  unfold agree_num_b. rewrite forallb_forall. intros H n s Hin [s0 Hs0]. specialize (H (n, s) Hin). cbn [fst snd] in H.
+  destruct (filter (fun x => fst x =? n) o) as [|x l] eqn:F.
+  - exfalso. assert (Hf: In (n, s0) (filter (fun x => fst x =? n) o)) by (apply filter_In; split; [exact Hs0|apply N.eqb_refl]).
+    rewrite F in Hf. exact Hf.
+  - apply existsb_exists in H. destruct H as [y [Hy Hc]].
+    assert (Hyo: In y (filter (fun x => fst x =? n) o)) by (rewrite F; exact Hy).
+    apply filter_In in Hyo. destruct Hyo as [Hyo Hn]. apply N.eqb_eq in Hn. destruct y as [yn ys]. cbn [fst snd] in *. subst yn.
+    exists ys. split; [exact Hyo|]. apply orb_true_iff in Hc. destruct Hc as [E|E].
+    + left. apply String.eqb_eq in E. exact E.
+    + right. apply existsb_exists in E. destruct E as [[a b] [Hp E]]. cbn [fst snd] in E. apply andb_true_iff in E. destruct E as [E1 E2].
+      apply String.eqb_eq in E1, E2. subst. exact Hp.
+Qed.
+
 (** generic association list over strings *)
 Fixpoint assoc {A} (l:list (string * A)) (key:string) : option A :=
   match l with [] => None | (k, v) :: r => if String.eqb k key then Some v else assoc r key end.
